@@ -298,9 +298,9 @@ def chk_c06(w):
                 cond = z3.And(gap, z3.Or(z3.BoolVal(p['live_before'] == 0), elapsed >= w.timeout))
                 acc.violated(ex, 'C06/graceful_shutdown_completes_once_idle_or_timed_out', cond, hist=w.hist,
                              what='worker still pending although a full 1 s tick went by and it is idle or past shutdown_timeout')
-    for ev in p['events']:
-        if ev.startswith('call:') and k > 0:
-            acc.violated(ex, 'C06/no_service_call_after_stop_was_received', True, hist=w.hist, what=ev)
+    # the Stop command is handled before anything else in a poll: from the poll that receives it on, nothing is served any more
+    calls = [ev for ev in p['events'] if ev.startswith('call:')]
+    acc.violated(ex, 'C06/no_service_call_after_stop_was_received', bool(calls), hist=w.hist, what='served after Stop: %s' % calls)
     # queued connections are released together with a counter guard: nothing stays queued, and the counter accounts for them
     if k >= 1 or (k == 0 and not p['ready'] and g):
         acc.violated(ex, 'C06/queued_connections_are_released_at_shutdown', len(w.connch.q) != 0, hist=w.hist)
@@ -475,6 +475,8 @@ def replay_file(path):
 
 def run_c01_worker_side(rep, tier, seed):
     q = tier == 'quick'
-    runs = [('S2', dict(S=2, steps=3 if q else 4, env_per_step=2, max_conns=2 if q else 3, actions=('conn', 'finish'), checks=(chk_c07,)))]
-    rep.need_witness('c07_calls')
-    run_worker_property(rep, 'C01', runs, tier, seed, keep=('C01/',))
+    runs = [('S2', dict(S=2, steps=3 if q else 4, env_per_step=2, max_conns=2 if q else 3, actions=('conn', 'finish'), checks=(chk_c07,))),
+            ('S2-stop', dict(S=2, steps=3 if q else 4, env_per_step=3, max_conns=2 if q else 3, pend_budget=1, err_budget=0, restart_pend_budget=0,
+                             actions=('conn', 'finish', 'stop'), checks=(chk_c07, chk_c06)))]
+    rep.need_witness('c07_calls', 'c06_graceful_waiting')
+    run_worker_property(rep, 'C01', runs, tier, seed, keep=('C01/', 'C06/no_service_call_after_stop', 'C06/queued_connections_are_released', 'C06/counter_matches'))
